@@ -1817,6 +1817,40 @@ func modeUUID(n int) {
 	for i := 0; i+1 < len(blanks); i++ {
 		emitPair("blank-uuid", blanks[i], blanks[i+1])
 	}
+	// size sweep: node type / id lengths around powers of two, pairs that differ only in the LAST byte of the id (a UUID
+	// computed from a fixed-size block, a truncated copy, a length stored in a byte ... collide here)
+	fill := func(n int, seed int) string {
+		b := make([]byte, n)
+		for i := range b {
+			b[i] = "abcdefghijklmnopqrstuvwxyz0123456789"[(i*7+seed)%36]
+		}
+		return string(b)
+	}
+	var totals []int
+	for _, r := range [][2]int{{60, 70}, {120, 135}, {250, 260}} {
+		for x := r[0]; x <= r[1]; x++ {
+			totals = append(totals, x)
+		}
+	}
+	totals = append(totals, 510, 511, 512, 513, 1023, 1024, 1025, 4095, 4096, 4097)
+	for _, tot := range totals {
+		splits := [][2]int{{tot / 2, tot - tot/2}}
+		if tot <= 260 {
+			splits = append(splits, [2]int{5, tot - 5}, [2]int{tot - 3, 3}, [2]int{tot / 4, tot - tot/4})
+		}
+		for _, sp := range splits {
+			ty := "/" + fill(sp[0]-1, tot)
+			id := fill(sp[1], tot+1)
+			a := mustNode(ty, id[:len(id)-1]+"A")
+			b := mustNode(ty, id[:len(id)-1]+"B")
+			emitPair("size-sweep", val{n: a}, val{n: b})
+		}
+	}
+	// per-part lengths: each part around the boundary, the other one 100 bytes
+	for _, x := range []int{28, 29, 63, 64, 65, 127, 128, 129, 255, 256, 257} {
+		emitPair("size-sweep", val{n: mustNode("/"+fill(x-1, x), fill(99, x)+"A")}, val{n: mustNode("/"+fill(x-1, x), fill(99, x)+"B")})
+		emitPair("size-sweep", val{n: mustNode("/"+fill(99, x), fill(x-1, x)+"A")}, val{n: mustNode("/"+fill(99, x), fill(x-1, x)+"B")})
+	}
 	// a blank node named after the printed UUID of another value must not get that value's UUID
 	for _, v := range []val{nodeOf("/a", "bc"), immOf("x"), litOf(literal.Text, "true")} {
 		emitPair("blank-uuid", val{n: mustNode("/_", v.uuid().String())}, v)
@@ -2017,7 +2051,59 @@ func modeUUIDConc(n int) {
 		}(g)
 	}
 	wg.Wait()
-	emit(J{"kind": "uuidconc", "values": len(vals), "goroutines": G, "calls": calls, "wrong": wrong, "examples": examples, "gomaxprocs": runtime.GOMAXPROCS(0)})
+	// fresh values: G2 goroutines are released together on a value whose UUID() was never called before; all of them must
+	// report the UUID a later sequential call reports (a pure comparison, no timing verdict)
+	G2, fresh := 16, 4000
+	if lightRun {
+		G2, fresh = 8, 300
+	}
+	freshWrong := 0
+	var freshEx []J
+	for i := 0; i < fresh; i++ {
+		var v val
+		switch i % 4 {
+		case 0, 1:
+			v = val{t: genTriple()}
+		default:
+			v = genVal()
+		}
+		res := make([]string, G2)
+		start := make(chan struct{})
+		var w2 sync.WaitGroup
+		for g := 0; g < G2; g++ {
+			w2.Add(1)
+			go func(g int) {
+				defer w2.Done()
+				defer func() {
+					if e := recover(); e != nil {
+						res[g] = "panic"
+					}
+				}()
+				<-start
+				if v.t != nil && g%2 == 1 {
+					if !v.t.Equal(v.t) {
+						res[g] = "Equal(self) false"
+						return
+					}
+				}
+				res[g] = v.uuid().String()
+			}(g)
+		}
+		close(start)
+		w2.Wait()
+		later := safeUUID(v)
+		for _, r := range res {
+			if r != later {
+				freshWrong++
+				if len(freshEx) < 5 {
+					freshEx = append(freshEx, J{"vk": v.kind(), "first_concurrent_call": r, "later_sequential_call": later})
+				}
+				break
+			}
+		}
+	}
+	emit(J{"kind": "uuidconc", "values": len(vals), "goroutines": G, "calls": calls, "wrong": wrong, "examples": examples, "gomaxprocs": runtime.GOMAXPROCS(0),
+		"fresh_values": fresh, "fresh_goroutines": G2, "fresh_wrong": freshWrong, "fresh_examples": freshEx})
 }
 
 // parseconc mode: the outcomes of all parsers on a set of inputs, computed sequentially, must be reproduced when 32
